@@ -15,6 +15,14 @@ REPLAYS = os.environ.get("VERIF_REPLAY_DIR") or os.path.join(VERIF, "replays")
 
 
 # ------------------------------------------------------------------- goldens
+def _norm(g: dict) -> dict:
+    """Which operating-system error an *unsuccessful* compile reports may depend on how
+    the path was spelled (`import ""` is a directory under an absolute path and the empty
+    path under a relative one): only 'it failed with an OS error' is compared."""
+    o = g["outcome"]
+    return {"outcome": "oserror" if o.startswith("oserror:") else o, "outputs": g["outputs"]}
+
+
 class Goldens:
     """Per-batch cache of golden results. A and B are computed in two different
     processes (hash seed, ASLR, cwd, path style, lint differ) and must agree; a
@@ -40,9 +48,9 @@ class Goldens:
                 for k in need:
                     a, b = ra[k], rb[k]
                     g = dict(a)
-                    if a != b:
+                    if _norm(a) != _norm(b):
                         g["disagree"] = {"A": a, "B": b}
-                    if k == pick and rp[k] != a:
+                    if k == pick and _norm(rp[k]) != _norm(a):
                         g["disagree"] = {"A": a, "P": rp[k]}
                     self.cache[k] = g
         with self.lock:
